@@ -91,6 +91,8 @@ def gen(rng, tier):
         cfg["policy"] = "unset"
         if rng.random() < 0.3:
             cfg["placement"] = "request"
+    if entry in ("pm", "proxy") and rng.random() < 0.25:
+        cfg["call"] = "urlopen"
     web = {}
     cur = start
     L = rng.choice([1, 2, 2, 3, 4, 5])
